@@ -48,6 +48,12 @@ func (m *MustFlow) Run() {
 			v := true
 			np := 0
 			for _, pr := range b.Preds {
+				if theProg != nil && theProg.info(pr.Parent()).cutAt[pr] >= 0 {
+					continue // pr ends in a call that never returns: its out-edges are dead
+				}
+				if !reachable(pr) {
+					continue
+				}
 				out := m.out(pr)
 				for k, s := range pr.Succs {
 					if s != b {
